@@ -265,7 +265,7 @@ func main() {
 	f := hx.ParseFlags()
 	o := hx.NewOut(f.Out)
 	defer o.Close()
-	n := f.N(40, 1500)
+	n := f.N(25, 1500)
 	for k := 0; k < n; k++ {
 		if !f.Want(k) {
 			continue
@@ -338,7 +338,37 @@ func runCase(o *hx.Out, f *hx.Flags, k int, t *tb) {
 	}
 	h0 := bc.BlockHeight()
 	record()
-	prev := recs[h0].d
+	prev := dump{}
+	emitBatch := func(h uint32, prev, cur dump) {
+		var parts []string
+		keys := map[string]bool{}
+		for kk := range prev {
+			keys[kk] = true
+		}
+		for kk := range cur {
+			keys[kk] = true
+		}
+		ks := make([]string, 0, len(keys))
+		for kk := range keys {
+			ks = append(ks, kk)
+		}
+		sort.Strings(ks)
+		for _, kk := range ks {
+			pv, pok := prev[kk]
+			cv, cok := cur[kk]
+			switch {
+			case cok && (!pok || !bytes.Equal(pv, cv)):
+				parts = append(parts, hx.Hex([]byte(kk)), hx.Hex(cv))
+			case pok && !cok:
+				parts = append(parts, hx.Hex([]byte(kk)), "del")
+			}
+		}
+		o.Line(fmt.Sprintf("batch %d %s", h, strings.Join(parts, " ")), hex.EncodeToString(recs[h].root[:]))
+		o.Add("batch-changes", len(parts)/2)
+	}
+	// the whole storage at h0 (genesis + deployments) as one batch from the empty trie
+	emitBatch(h0, prev, recs[h0].d)
+	prev = recs[h0].d
 
 	nBlocks := r.Range(8, 25)
 	live := map[string]bool{}
@@ -382,32 +412,7 @@ func runCase(o *hx.Out, f *hx.Flags, k int, t *tb) {
 		record()
 		h := bc.BlockHeight()
 		cur := recs[h].d
-		// stream line: the MPT batch of this block (net change of the dump) -> root
-		var parts []string
-		keys := map[string]bool{}
-		for kk := range prev {
-			keys[kk] = true
-		}
-		for kk := range cur {
-			keys[kk] = true
-		}
-		ks := make([]string, 0, len(keys))
-		for kk := range keys {
-			ks = append(ks, kk)
-		}
-		sort.Strings(ks)
-		for _, kk := range ks {
-			pv, pok := prev[kk]
-			cv, cok := cur[kk]
-			switch {
-			case cok && (!pok || !bytes.Equal(pv, cv)):
-				parts = append(parts, hx.Hex([]byte(kk)), hx.Hex(cv))
-			case pok && !cok:
-				parts = append(parts, hx.Hex([]byte(kk)), "del")
-			}
-		}
-		o.Line(fmt.Sprintf("batch %d %s", h, strings.Join(parts, " ")), hex.EncodeToString(recs[h].root[:]))
-		o.Add("batch-changes", len(parts)/2)
+		emitBatch(h, prev, cur)
 		prev = cur
 	}
 	top := bc.BlockHeight()
@@ -540,7 +545,11 @@ func runCase(o *hx.Out, f *hx.Flags, k int, t *tb) {
 			} else if err == nil {
 				o.Fail("getstate-absent", k, "height %d key %x: got %x for an absent key", h, pk, v)
 			}
-			o.Line(fmt.Sprintf("get %d %s", h, hx.Hex(pk)), map[bool]string{true: hx.Hex(want), false: "none"}[present]+map[bool]string{true: "", false: ""}[present])
+			if present {
+				o.Line(fmt.Sprintf("get %d %s", h, hx.Hex(pk)), hx.Hex(want))
+			} else {
+				o.Line(fmt.Sprintf("get %d %s", h, hx.Hex(pk)), "none")
+			}
 			proof, perr := sm.GetStateProof(rec.root, pk)
 			if present {
 				if perr != nil {
